@@ -29,6 +29,10 @@ CHECKS = {
    text="2-3 threads run real validate calls (shared pandas schema with coerce / frame dtype / regex columns, different schemas, polars DataFrame and LazyFrame, polars validate beside a user config_context, first use of a DataFrameModel, first use of the backend registry) under a scheduler that preempts only between two Python statements of pandera code: systematic single preemption in both directions, a grid of double preemptions and seeded random switching; every thread's outcome must equal its solo outcome bit-for-bit and config context, CONFIG and every schema fingerprint after join must equal those before. The evidence lists distinct executed interleavings and yield points.",
    note="Preemption points are a subset of real GIL switch points (no impossible interleaving); races inside a single pandas/polars call are not explored; 2-3 threads, frames <= 5 rows.",
    ref="4/C07"),
+ "C14": dict(cat="exploration", tech="round-trip acceptance monitor on real infer_schema executions with exact-arithmetic comparison of every inferred bound against the data",
+   text="Generated pandas frames and series go through the real infer_schema -> validate -> to_yaml/from_yaml -> validate. Workload: a deterministic catalogue of every column class x {plain, some nulls, all null, empty} and every index shape, then seeded random frames (ints to the width limits and beyond 2**53, floats with inf/-0.0/subnormals, bool, str, mixed object, categorical, datetime incl. sub-second / tz-aware, timedelta, nullable extension dtypes, period, interval, Index and MultiIndex). The monitor checks acceptance, value-equality of the returned object, equality of every inferred bound with the data's min/max recomputed on Python ints / Fractions / Timestamps, and an equal verdict after the YAML round trip; failures are re-run one component at a time and keyed by stage plus data-derived flags.",
+   note="Not judged: dtype/representation changes with equal values (coerce=True is part of every inferred schema); tightness for bool, timedelta, complex; SeriesSchema serialisation (no YAML writer); JSON / to_script. Not generated: duplicate column labels, MultiIndex columns, Decimal / datetime.time / bytes / Period object columns. Trusted: pandas construction of the frames, Python int/Fraction/Timestamp comparison.",
+   ref="4/C14"),
  "C15": dict(cat="exploration", tech="program-level metamorphic monitor: schema and an accepted frame transformed in lock-step by the real methods; receiver fingerprint, untouched-attribute fingerprints, accept(op(S),op(D)), inverse laws",
    text="Generated pandas and polars DataFrameSchemas with rich attributes are driven through programs of up to 5 transforming requests (add, remove, select, rename, update_column(s), set_index, reset_index, update_checks, set_checks) plus interleaved invalid requests; each request is mirrored on a real accepted frame. Monitors at every step: receiver fingerprint unchanged; every attribute not named by the request fingerprint-equal (incl. Index<->Column carry-over and MultiIndex options); accept(op(S), op(D)); a bad value in an untouched column stays rejected; the four inverse laws give a schema == and fingerprint-equal to S; invalid requests raise SchemaInitError/ValueError and return nothing.",
    note="set_index/reset_index judged for pandas only (polars frames have no index); where reset_index inserts former levels is judged only through the mirror on ordered=True schemas (open finding); coerce folded into the level left by a dissolved MultiIndex(coerce=True) not judged; updates are neutral, relaxing or data-satisfying only. Trusted: pvm.fingerprint, pvm.harness, pandas/polars as frame libraries.",
